@@ -36,7 +36,9 @@ pub trait Modeled: Sized {
 	where
 		Self: 'a,
 	{
-		if Self::ZW {
+		if Self::ZW || (std::mem::size_of::<Self>() == 0 && len > 1 << 20) {
+			// (a type that is zero-sized in memory has a single value: a decoder that wrongly accepts a giant count
+			// of such elements must yield a comparable value, not exhaust the harness's memory)
 			let first = it.next().map(|x| x.to_val()).unwrap_or_else(|| Self::ty().default_val());
 			Val::Repeat(len as u64, Box::new(first))
 		} else {
